@@ -9,7 +9,7 @@ COMMON_ASSUMPTIONS = [
 
 PROPERTIES: dict[str, dict] = {
     "C01": {
-        "rules": ["R-BLISS", "R-FLOW-CANON", "R-FLOW-SERIAL", "R-KEYS", "R-BIJ", "R-OWNFIRST", "R-HASH", "R-INDEXSPACE", "R-GRAPHBUILD", "R-REBUILD", "R-ATTRREAD", "R-GLOBAL"],
+        "rules": ["R-BLISS", "R-FLOW-CANON", "R-FLOW-SERIAL", "R-KEYS", "R-BIJ", "R-OWNFIRST", "R-HASH", "R-INDEXSPACE", "R-GRAPHBUILD", "R-REBUILD", "R-ATTRREAD", "R-GLOBAL", "R-IDXTRUTH"],
         "thorough_rules": ["R-LIBSRC"],
         "technique": "information-flow (order/label/hash taint) abstract interpretation + index-space typing of the bliss call site",
         "explanation": "Non-interference proof over all paths of canonicalize_molecule and serialize_molecule: colours handed to bliss carry no "
@@ -30,7 +30,7 @@ PROPERTIES: dict[str, dict] = {
         "assumptions": COMMON_ASSUMPTIONS,
     },
     "C03": {
-        "rules": ["R-CODEC", "R-KEYS", "R-ELEMTABLE", "R-GRAM3", "R-SHAPE", "R-ZERO", "R-BLISS", "R-FLOW-CANON", "R-FLOW-SERIAL", "R-BIJ", "R-REBUILD", "R-EXPRESS", "R-ATTRREAD", "R-REJECT", "R-GLOBAL", "R-RECMERGE"],
+        "rules": ["R-CODEC", "R-KEYS", "R-ELEMTABLE", "R-GRAM3", "R-SHAPE", "R-ZERO", "R-BLISS", "R-FLOW-CANON", "R-FLOW-SERIAL", "R-BIJ", "R-REBUILD", "R-EXPRESS", "R-ATTRREAD", "R-REJECT", "R-GLOBAL", "R-RECMERGE", "R-PARSEPATH"],
         "thorough_rules": ["R-LIBSRC"],
         "technique": "codec-agreement rules + language inclusion (emitted ⊆ grammar) by automata + the C01 flow proof for the fixed-point half",
         "explanation": "Serializer/parser agreement (offsets, key tables, numbering by atomic number, stable sort), emitted strings are sentences of the "
@@ -58,7 +58,7 @@ PROPERTIES: dict[str, dict] = {
         "assumptions": COMMON_ASSUMPTIONS + ["attribute values of graphs reaching the serializer come from the readers or the parser"],
     },
     "C06": {
-        "rules": ["R-ATTRREAD", "R-KEYS", "R-PROV", "R-KWEXACT", "R-ZERO", "R-SUPERSEDE", "R-SPLICE", "R-INDEXSPACE", "R-GRAPHBUILD", "R-FLOW-SERIAL", "R-FLOW-CANON", "R-DISPATCH"],
+        "rules": ["R-ATTRREAD", "R-KEYS", "R-PROV", "R-KWEXACT", "R-ZERO", "R-SUPERSEDE", "R-SPLICE", "R-INDEXSPACE", "R-GRAPHBUILD", "R-FLOW-SERIAL", "R-FLOW-CANON", "R-DISPATCH", "R-IDXTRUTH", "R-COLS"],
         "technique": "read-set analysis of the pipeline + provenance taint in the readers + partial evaluation of keyword recognizers",
         "explanation": "The pipeline reads only invariant code / partition / Z / symbol / mass / rad and no edge data; the invariant code is exactly "
                        "(Z, mass, rad); in both readers those attributes receive values only from their own fields (provenance labels); an unrelated "
@@ -67,7 +67,7 @@ PROPERTIES: dict[str, dict] = {
         "assumptions": COMMON_ASSUMPTIONS + ["CTfile V3000 atom keyword list (spec.py)"],
     },
     "C07": {
-        "rules": ["R-KWEXACT", "R-ZERO", "R-ORDERING", "R-SPLICE", "R-TOKENS", "R-SIBKEYS", "R-PROV", "R-ALIAS", "R-WRAP", "R-INDEXSPACE", "R-GRAPHBUILD", "R-DISPATCH", "R-SYMZ", "R-BONDTYPE"],
+        "rules": ["R-KWEXACT", "R-ZERO", "R-ORDERING", "R-SPLICE", "R-TOKENS", "R-SIBKEYS", "R-PROV", "R-ALIAS", "R-WRAP", "R-INDEXSPACE", "R-GRAPHBUILD", "R-DISPATCH", "R-SYMZ", "R-BONDTYPE", "R-IDXTRUTH"],
         "technique": "partial evaluation of token predicates over the spec's keyword set + heap-based taint analysis of the reader + CFG ordering rules",
         "explanation": "Keyword recognizers accept exactly their keyword; zero-valued explicit defaults never reach atom records; splicing precedes "
                        "tokenising and bond endpoints are validated before return; D/T pass through the shared helper; per-bond dictionaries are not shared.",
@@ -75,7 +75,7 @@ PROPERTIES: dict[str, dict] = {
         "assumptions": COMMON_ASSUMPTIONS + ["CTfile V3000 atom keyword list (spec.py)"],
     },
     "C08": {
-        "rules": ["R-COLS", "R-CHGTABLE", "R-SIBKEYS", "R-KILL", "R-SUPERSEDE", "R-ZERO", "R-PROV", "R-INDEXSPACE", "R-GRAPHBUILD", "R-FLOW-SERIAL", "R-FLOW-CANON", "R-DISPATCH", "R-SYMZ", "R-BONDTYPE"],
+        "rules": ["R-COLS", "R-CHGTABLE", "R-SIBKEYS", "R-KILL", "R-SUPERSEDE", "R-ZERO", "R-PROV", "R-INDEXSPACE", "R-GRAPHBUILD", "R-FLOW-SERIAL", "R-FLOW-CANON", "R-DISPATCH", "R-SYMZ", "R-BONDTYPE", "R-IDXTRUTH"],
         "technique": "column-span checking via provenance labels and partial evaluation + kill/def analysis of the property block",
         "explanation": "Every column slice equals its CTfile field (atom, bond, counts and the affine property-entry layout for entries 1..8), the "
                        "charge-code table is the format's, both readers write the same keys, symbol-derived masses are never cleared, CHG/RAD lines "
@@ -92,7 +92,7 @@ PROPERTIES: dict[str, dict] = {
         "assumptions": COMMON_ASSUMPTIONS,
     },
     "C10": {
-        "rules": ["R-GRAM3", "R-LEX", "R-GRAMREC", "R-LISTENERS", "R-HANDLERS", "R-ORDERING", "R-DUPATTR", "R-ESCAPE", "R-REJECT", "R-ALIAS", "R-KEYS", "R-ELEMTABLE", "R-CODEC", "R-GRAPHBUILD", "R-GLOBAL"],
+        "rules": ["R-GRAM3", "R-LEX", "R-GRAMREC", "R-LISTENERS", "R-HANDLERS", "R-ORDERING", "R-DUPATTR", "R-ESCAPE", "R-REJECT", "R-ALIAS", "R-KEYS", "R-ELEMTABLE", "R-CODEC", "R-GRAPHBUILD", "R-GLOBAL", "R-PARSEPATH", "R-IDXTRUTH"],
         "thorough_rules": ["R-GENCODE"],
         "technique": "language equivalence EBNF = G4 = generated ATN by automata + typestate/CFG rules on the parser wiring",
         "explanation": "The recogniser the parser runs is the published grammar (decision procedure over all strings: three-way language equivalence "
@@ -102,7 +102,7 @@ PROPERTIES: dict[str, dict] = {
         "assumptions": COMMON_ASSUMPTIONS + ["numbers in TUCAN strings stay below the interpreter's integer-conversion limit"],
     },
     "C11": {
-        "rules": ["R-FLOW-PARSE", "R-BLISS", "R-FLOW-CANON", "R-FLOW-SERIAL", "R-BIJ", "R-KEYS", "R-REBUILD", "R-ATTRREAD", "R-GLOBAL", "R-CODEC"],
+        "rules": ["R-FLOW-PARSE", "R-BLISS", "R-FLOW-CANON", "R-FLOW-SERIAL", "R-BIJ", "R-KEYS", "R-REBUILD", "R-ATTRREAD", "R-GLOBAL", "R-CODEC", "R-REJECT", "R-PARSEPATH"],
         "thorough_rules": ["R-LIBSRC"],
         "technique": "taint analysis of the parser listener composed with the C01 flow proof",
         "explanation": "Spelling (tuple order, orientation, repetition, block order) reaches the parsed graph only as insertion order; the pipeline is "
@@ -137,7 +137,7 @@ PROPERTIES: dict[str, dict] = {
         "assumptions": COMMON_ASSUMPTIONS,
     },
     "C15": {
-        "rules": ["R-NOREC", "R-GRAMREC", "R-FAILSITES", "R-BIJ", "R-NOBONDS"],
+        "rules": ["R-NOREC", "R-GRAMREC", "R-FAILSITES", "R-BIJ", "R-NOBONDS", "R-REJECT"],
         "technique": "call-graph cycle detection + grammar rule-graph acyclicity + enumeration of rejecting constructs in the pipeline",
         "explanation": "No input-dependent recursion in tucan code reachable from the public entry points; parse depth is bounded by the number of "
                        "grammar rules because the rule graphs (EBNF, G4, generated ATN) are acyclic; the pipeline contains no raise / size guard, and its one "
